@@ -74,7 +74,15 @@ func TestWriteReplays(t *testing.T) {
 		{First: hard, Post: soft, Calls: []Call{{Payload: logs, Downstream: "err"}}},
 		{First: hard, Post: soft - 1, Calls: []Call{{Payload: logs, Downstream: "err"}}},
 	}})
-	write("05-consume-extension.json", "consume", PScript{Cfg: pct, Kind: "extension", Signal: sig.Logs, FreezeMS: 3, Phases: []Phase{
+	// the host cancels the context it gave to Start as soon as Start returned (component.Component: "that context
+	// will be cancelled soon"): the checker must keep running and follow the usage in both directions.
+	write("10-consume-processor-start-ctx-cancelled.json", "consume", PScript{Cfg: readme, Kind: "processor", Signal: sig.Metrics, FreezeMS: 3, CancelStartCtx: true, Phases: []Phase{
+		{First: hard, Post: hard, Calls: []Call{{Payload: metrics, Downstream: "ok"}}},
+		{First: soft - 1, Post: 0, Calls: []Call{{Payload: metrics, Downstream: "ok"}}},
+		{First: soft, Post: 0, Calls: []Call{{Payload: metrics, Downstream: "err"}}},
+		{First: 0, Post: 0, Calls: []Call{{Payload: metrics, Downstream: "perm"}}},
+	}})
+	write("05-consume-extension.json", "consume", PScript{Cfg: pct, Kind: "extension", Signal: sig.Logs, FreezeMS: 3, CancelStartCtx: true, Phases: []Phase{
 		{First: 650 * mib, Post: 650 * mib}, {First: 650*mib - 1, Post: 0}, {First: 900 * mib, Post: 649 * mib}, {First: 900 * mib, Post: 651 * mib},
 	}})
 	// both kinds set.  07: the fixed pair is the effective one and is malformed (spike > limit) while the percentage
@@ -91,7 +99,7 @@ func TestWriteReplays(t *testing.T) {
 	})
 	gen0 := RCGen{CfgMode: "first", Cfg: readme, Signals: []string{sig.Logs, sig.Metrics, sig.Logs}, Unstarted: 1, Ops: []Op{
 		{Kind: "start", Proc: 0, On: 0, Probe: &Phase{First: soft, Post: 0, Calls: []Call{{Payload: logs, Downstream: "ok"}}}},
-		{Kind: "start", Proc: 1},
+		{Kind: "start", Proc: 1, CancelCtx: true},
 		{Kind: "stop", Proc: 0, On: 1, Probe: &Phase{First: soft - 1, Post: 0, Calls: []Call{{Payload: metrics, Downstream: "ok"}}}},
 		{Kind: "start", Proc: 2, On: 2, Probe: &Phase{First: hard, Post: hard, Calls: []Call{{Payload: logs, Downstream: "ok"}}}},
 		{Kind: "stop", Proc: 1, On: 2, Probe: &Phase{First: 0, Post: 0, Calls: []Call{{Payload: logs, Downstream: "err"}}}},
@@ -110,9 +118,9 @@ func TestWriteReplays(t *testing.T) {
 			a, b = hi, lo
 		}
 		return RCGen{CfgMode: mode, Cfg: c, Signals: []string{sig.Logs, sig.Metrics}, Ops: []Op{
-			{Kind: "start", Proc: 0, On: 0, Probe: a},
+			{Kind: "start", Proc: 0, On: 0, Probe: a, CancelCtx: up}, // first user: Start context cancelled in every other generation
 			{Kind: "probe", On: 0, Probe: b},
-			{Kind: "start", Proc: 1},
+			{Kind: "start", Proc: 1, CancelCtx: !up},
 			{Kind: "stop", Proc: 0, On: 1, Probe: &Phase{First: a.First, Post: a.Post, Calls: []Call{{Payload: metrics, Downstream: "perm"}}}},
 			{Kind: "probe", On: 1, Probe: &Phase{First: lo.First, Post: 0, Calls: []Call{{Payload: metrics, Downstream: "ok"}}}},
 			{Kind: "stop", Proc: 1},
